@@ -332,6 +332,24 @@ fn check_tape(tape: &[u8], gates: &Gates, stats: &mut Stats, counting: bool) -> 
         };
         d.text.insert_str(at, junk);
     }
+    // earlier versions may be unlexable too, and tokens may be requested after ANY version (an
+    // editor asks after every keystroke): each answer is about the text that is current when the
+    // request arrives - a list for a lexable text, null for an unlexable one, whatever was
+    // answered before
+    let n_docs = docs.len();
+    let mut junked: Vec<bool> = vec![false; n_docs];
+    for i in 0..n_docs.saturating_sub(1) {
+        if choice.ratio(1, 4) {
+            let junk = *choice.pick(&["?", "@", "~", "`", "!", "\u{20ac}"]);
+            let d = &mut docs[i];
+            let starts: Vec<usize> = d.lay.pieces.iter().filter(|p| p.lexeme.is_some()).map(|p| p.start).collect();
+            let at = if starts.is_empty() || choice.flag() { d.text.len() } else { starts[choice.below(starts.len())] };
+            d.text.insert_str(at, junk);
+            junked[i] = true;
+        }
+    }
+    junked[n_docs - 1] = lexical_error;
+    let asked: Vec<bool> = (0..n_docs).map(|i| i + 1 == n_docs || choice.ratio(1, 2)).collect();
     let uri = "file:///w/doc.st";
     let other = "file:///w/other.st";
     let mut msgs = vec![lsp_initialize(0), lsp_initialized()];
@@ -354,6 +372,9 @@ fn check_tape(tape: &[u8], gates: &Gates, stats: &mut Stats, counting: bool) -> 
             ver += 1;
             msgs.push(lsp_did_change(uri, ver, &[&d.text]));
         }
+        if i + 1 < n_docs && asked[i] {
+            msgs.push(lsp_semantic_tokens(json!(100 + i as i64), uri));
+        }
     }
     msgs.push(lsp_semantic_tokens(json!(7), uri));
     msgs.push(lsp_shutdown(8));
@@ -371,6 +392,31 @@ fn check_tape(tape: &[u8], gates: &Gates, stats: &mut Stats, counting: bool) -> 
         None => return Err(fail("no-response", format!("no response to the semanticTokens request (exit {:?})", run.status))),
     };
     let legend = legend_of(&run.frames);
+    // the answers to the requests made after earlier versions
+    for i in 0..n_docs.saturating_sub(1) {
+        if !asked[i] {
+            continue;
+        }
+        let d = &docs[i];
+        let r = run.frames.iter().find(|f| f["id"] == 100 + i as i64 && f.get("method").is_none());
+        let failv = |kind: &str, detail: String| Failure::new("semantic-tokens", kind, format!("request after version {} of {}: {}", i + 1, n_docs, detail), json!({"text": d.text, "response": r, "history_length": n, "texts": docs.iter().map(|x| x.text.clone()).collect::<Vec<_>>()}));
+        let r = match r {
+            Some(r) => r,
+            None => return Err(failv("no-response", format!("no response to the semanticTokens request (exit {:?})", run.status))),
+        };
+        if counting {
+            stats.class(if junked[i] { "intermediate-request.unlexable-version" } else { "intermediate-request.lexable-version" });
+        }
+        if junked[i] {
+            if !r["result"].is_null() && r.get("error").is_none() {
+                return Err(failv("partial-list", "the text current at that moment contains text that is not a valid token, but the result is not null".into()));
+            }
+        } else if d.lay.text == d.text {
+            if let Err((kind, detail)) = judge(d, &legend, &r["result"], gates.is_off("SEMANTIC_TOKENS_NON_ASCII_DOCUMENT")) {
+                return Err(failv(&kind, detail));
+            }
+        }
+    }
     if counting {
         let lines_with_tokens = doc.text.lines().filter(|l| !l.trim().is_empty()).count();
         let comment_then_token = doc.text.lines().any(|l| l.contains("*)") && l.rsplit("*)").next().map(|r| !r.trim().is_empty()).unwrap_or(false));
